@@ -34,6 +34,8 @@ def run_model(ev, part, cfg, binaries, p, walks=0, walk_len=0, shards=1, tlc_tim
     work = os.path.join(vf.BUILD, "work", "%s_%s_%d" % (ev.prop, part, os.getpid()))
     rnd = random.Random(vf.seed())
     env = {"VF_P": str(p)}
+    if os.environ.get("VF_IDS"):
+        env["VF_IDS"] = os.environ["VF_IDS"]
     if extra_env:
         env.update(extra_env)
     summ, devs, crashes, nb = vf.replay(g, binaries, work, env=env, shards=shards, rnd=rnd, walks=walks, walk_len=walk_len,
